@@ -34,8 +34,8 @@ except Exception: pass
 for l in sys.stdin:
     if l.startswith('{'):
         d=json.loads(l)
-        new=[o for o in d['bad'] if (o['rule'],o['construct']) not in base]
-        print('obligations',d['obligations'],'bad',len(d['bad']),'NEW',len(new))
+        new=[o for o in (d['bad'] or []) if (o['rule'],o['construct']) not in base]
+        print('obligations',d['obligations'],'bad',len(d['bad'] or []),'NEW',len(new))
         for o in new: print('   NEW [%s] %s @ %s: %s'%(o['rule'],o['construct'],o['pos'],o['why'][:160]))
     else: print(l.rstrip())
 "; done
